@@ -125,6 +125,61 @@ def _doc_with_pre(fn, extra_pre):
     return '\n' + '\n'.join(lines) + '\n    '
 
 
+_INT_POOL = [0, 1, 2, 3, 5, 7, 8, 15, 16, 31, 32, 63, 64, 127, 128, 129, 254, 255, 256, 257, 1000, 4095, 16383, 16384,
+             32767, 32768, 65534, 65535, 65536, 2 ** 24 - 1, 2 ** 24, 2 ** 31, 2 ** 32 - 1, 2 ** 32, 2 ** 40, 2 ** 63,
+             2 ** 64 - 1, -1, -2, -128, -129, -256, -65536, -2 ** 32]
+
+
+def _sample_value(annotation, rng):
+    import typing  # pylint: disable=import-outside-toplevel
+    if annotation is bool:
+        return rng.random() < 0.5
+    if annotation is int:
+        return rng.choice(_INT_POOL) if rng.random() < 0.7 else rng.randrange(-4, 300)
+    if annotation is bytes:
+        return bytes(rng.choice([0, 1, 10, 13, 32, 48, 65, 97, 127, 128, 255, rng.randrange(256)])
+                     for _ in range(rng.choice([0, 1, 1, 2, 2, 3, 4])))
+    if annotation is str:
+        return ''.join(rng.choice('aZ09 ;=,-') for _ in range(rng.randrange(0, 4)))
+    origin = typing.get_origin(annotation)
+    if origin in (list, typing.List):
+        (inner,) = typing.get_args(annotation) or (int,)
+        return [_sample_value(inner, rng) if inner is not int else rng.randrange(0, 9)
+                for _ in range(rng.randrange(0, 4))]
+    raise TypeError('no sampler for %r' % (annotation,))
+
+
+def differential(fn, seed_value, label, count=20):
+    """Serval-style cross-check of a CONFIRMED verdict: the harness is executed natively (no tracer) on concrete
+    arguments; every run has to return True.  returns (runs, runs that reached the assertion, failing args)"""
+    import zlib  # pylint: disable=import-outside-toplevel
+    rng = random.Random(seed_value * 1000003 + zlib.crc32(label.encode()))
+    sig = inspect.signature(fn)
+    runs = reached = 0
+    failures = []
+    module = sys.modules.get(fn.__module__)
+    sampler = getattr(module, 'sample_' + fn.__name__, None) or getattr(module, 'sample_args', None)
+    for _ in range(count):
+        try:
+            kwargs = {name: _sample_value(param.annotation, rng) for name, param in sig.parameters.items()}
+            if sampler is not None:
+                kwargs.update(sampler(rng, kwargs) or {})
+        except TypeError:
+            break
+        before = api.REACHED
+        try:
+            outcome = bool(fn(**kwargs))
+        except Exception as exc:  # pylint: disable=broad-except
+            outcome = False
+            kwargs = dict(kwargs, _exception='%s: %s' % (type(exc).__name__, str(exc)[:200]))
+        runs += 1
+        if api.REACHED > before:
+            reached += 1
+        if not outcome and len(failures) < 3:
+            failures.append(api.encode_args(kwargs))
+    return runs, reached, failures
+
+
 def shard_worker(shard_d, conn):
     """runs in a forked child"""
     result = {'label': shard_d['label'], 'verdict': 'ERROR', 'message': '', 'args': None,
@@ -161,6 +216,10 @@ def shard_worker(shard_d, conn):
                 result['twin'] = 'unknown: ' + tmsg[:200]
             result['paths'] += int(tcounter.get('num_paths', 0))
             api.TWIN = False
+        if result['verdict'] == 'CONFIRMED' and not shard_d['extra_pre'] and not shard_d['allow_sites']:
+            api.TWIN = False
+            runs, reached, failures = differential(fn, int(os.environ.get('VERIF_SEED', '0') or 0), shard_d['label'])
+            result.update(diff_runs=runs, diff_reached=reached, diff_failures=failures)
         result.update(queries=stats['queries'], solver_s=round(stats['seconds'], 3),
                       solver_unknown=stats['unknown'], masks=sorted(chx.MASKS_SEEN))
     except BaseException as exc:  # pylint: disable=broad-except
